@@ -880,4 +880,120 @@ theorem reopen_inv (s : Store) (inv : Inv s) (guard : ReopenGuard s) :
     · rfl
     · intro rs hrs; exact hdirs _ hrs
 
+/-! ### histories -/
+
+/-- DROP TABLE: no delete vector of that table names a row-set that compaction removed -/
+def dropGuard (s : Store) (n : String) : Prop :=
+  match s.cat.find? n with
+  | some e0 => ∀ e ∈ s.dvs, e.tid = e0.id → (e0.id, e.rs) ∈ s.rowsets
+  | none => True
+
+/-- INSERT: no NULL goes into a NOT NULL column (C05) -/
+def insertGuard (s : Store) (n : String) (parts : List (List Row)) : Prop :=
+  match s.tableId? n with
+  | some tid => match lookup tid s.tables with
+    | some d => ∀ r ∈ parts.flatten, storeRow d.cols r = r
+    | none => True
+  | none => True
+
+/-- what a statement must satisfy, in the state it is issued in, for the history to stay inside
+what the code handles correctly (each clause is forced by a defect that the checks reproduce) -/
+def Guard (s : Store) : Op → Prop
+  | .createView _ => False                       -- views / indexes take table ids that are not logged
+  | .createIndex _ _ => False
+  | .drop n => dropGuard s n
+  | .reopen => ReopenGuard s                     -- stale DVs are below some live row-set id
+  | .insert n parts => insertGuard s n parts
+  | _ => True
+
+instance (s : Store) : Decidable (ReopenGuard s) := by unfold ReopenGuard; infer_instance
+
+instance (s : Store) (n : String) : Decidable (dropGuard s n) := by
+  unfold dropGuard
+  generalize s.cat.find? n = o
+  cases o with
+  | none => exact isTrue trivial
+  | some e0 => simp only; infer_instance
+
+instance (s : Store) (n : String) (parts : List (List Row)) : Decidable (insertGuard s n parts) := by
+  unfold insertGuard
+  generalize s.tableId? n = o
+  cases o with
+  | none => exact isTrue trivial
+  | some tid =>
+    simp only
+    generalize lookup tid s.tables = o2
+    cases o2 with
+    | none => exact isTrue trivial
+    | some d => simp only; infer_instance
+
+instance (s : Store) : (op : Op) → Decidable (Guard s op)
+  | .create _ => isTrue trivial
+  | .createView _ => isFalse id
+  | .createIndex _ _ => isFalse id
+  | .delete _ _ => isTrue trivial
+  | .compact _ => isTrue trivial
+  | .vacuum => isTrue trivial
+  | .reopen => by show Decidable (ReopenGuard s); infer_instance
+  | .drop n => by show Decidable (dropGuard s n); infer_instance
+  | .insert n parts => by show Decidable (insertGuard s n parts); infer_instance
+
+def GoodHist : Store → List Op → Prop
+  | _, [] => True
+  | s, op :: ops => Guard s op ∧ match (stepUp s op).1 with
+    | .up s' => GoodHist s' ops
+    | .dead _ => True
+
+instance : ∀ (h : List Op) (s : Store), Decidable (GoodHist s h)
+  | [], _ => by unfold GoodHist; infer_instance
+  | op :: ops, s => by
+    unfold GoodHist
+    cases hs : (stepUp s op).1 with
+    | up s' => simp only; exact @instDecidableAnd _ _ _ (instDecidableGoodHist ops s')
+    | dead _ => simp only; infer_instance
+
+/-- one guarded statement keeps the invariant and never kills the database -/
+theorem step_inv (s : Store) (inv : Inv s) (op : Op) (g : Guard s op) :
+    ∃ s', (stepUp s op).1 = .up s' ∧ Inv s' := by
+  cases op with
+  | create d =>
+    cases ha : s.cat.add d.name .table with
+    | none => exact ⟨s, by simp [stepUp, Store.createTable, ha], inv⟩
+    | some r => exact ⟨_, rfl, createTable_inv s inv d r.1 r.2 ha⟩
+  | createView n => exact absurd g id
+  | createIndex n t => exact absurd g id
+  | drop n =>
+    cases hf : s.cat.find? n with
+    | none => exact ⟨s, by simp [stepUp, Store.drop, hf], inv⟩
+    | some e0 =>
+      simp only [Guard, dropGuard, hf] at g
+      exact ⟨_, rfl, drop_inv s inv n e0 hf g⟩
+  | insert n parts =>
+    cases h1 : s.tableId? n with
+    | none => exact ⟨s, by simp [stepUp, Store.insert, h1], inv⟩
+    | some tid =>
+      cases h2 : lookup tid s.tables with
+      | none => exact ⟨s, by simp [stepUp, Store.insert, h1, h2], inv⟩
+      | some d => exact ⟨_, rfl, insert_inv s inv n parts tid d h1 h2⟩
+  | delete n p =>
+    cases h1 : s.tableId? n with
+    | none => exact ⟨s, by simp [stepUp, Store.delete, h1], inv⟩
+    | some tid => exact ⟨_, rfl, delete_inv s inv n p tid h1⟩
+  | compact plan => exact ⟨_, rfl, compact_inv plan s inv⟩
+  | vacuum => exact ⟨_, rfl, vacuum_inv s inv⟩
+  | reopen =>
+    obtain ⟨s', h1, h2, _⟩ := reopen_inv s inv g
+    exact ⟨s', by simp [stepUp, h1], h2⟩
+
+/-- **every guarded history of acknowledged statements (DDL, INSERT, DELETE, compaction, vacuum,
+shutdown+reopen, in any order and number) ends in a state satisfying the invariant** -/
+theorem hist_inv : ∀ (h : List Op) (s : Store), Inv s → GoodHist s h → ∃ s', run (.up s) h = .up s' ∧ Inv s'
+  | [], s, inv, _ => ⟨s, rfl, inv⟩
+  | op :: ops, s, inv, g => by
+    obtain ⟨s1, e1, inv1⟩ := step_inv s inv op g.1
+    have g2 := g.2
+    rw [e1] at g2
+    obtain ⟨s2, e2, inv2⟩ := hist_inv ops s1 inv1 g2
+    exact ⟨s2, by simp only [run, step, e1]; exact e2, inv2⟩
+
 end RlModel
